@@ -47,6 +47,8 @@ class Multiball(EnableDisableMixin, SystemWideDevice, ModeDevice):
         if self.shoot_again:
             self.stop()
 
+        self.delay.clear()
+
     async def _initialize(self):
         await super()._initialize()
         self.ball_locks = self.config['ball_locks']
